@@ -23,6 +23,7 @@ struct M {
   MAKE_MOCK1(cr, const int&(int));
   MAKE_MOCK1(sv, std::string(int));
   MAKE_CONST_MOCK1(f, int(int));
+  MAKE_MOCK0(z, int());
 };
 struct MV {
   static constexpr bool trompeloeil_movable_mock = true;
@@ -34,6 +35,7 @@ struct MV {
   MAKE_MOCK1(cr, const int&(int));
   MAKE_MOCK1(sv, std::string(int));
   MAKE_CONST_MOCK1(f, int(int));
+  MAKE_MOCK0(z, int());
 };
 struct MW {
   MW() = default;
@@ -83,6 +85,7 @@ struct World {
   struct WithEv { int slot, idx; bool res; };
   std::vector<WithEv> withlog;
   int depth = 0;       // nesting depth of mock calls made by the harness (0 = top level)
+  long delivered[8] = {0, 0, 0, 0, 0, 0, 0, 0};  // per reporter generation: invocations since its installation
   int callobj = 0;     // object of the call in progress
   int callfn = 0;      // function of the outermost call in progress
   int throw_depth = 0; // nesting depth at which the exception in flight was thrown
